@@ -740,7 +740,11 @@ fn run_stress(ctx: &mut Ctx) {
         return;
     }
     sourcemap::verif_hooks::set_yield_hook(None);
-    let rounds = ctx.tier.pick(3_000u64, 300_000);
+    let base_rounds = ctx.tier.pick(3_000u64, 300_000);
+    // second phase ("bursts"): four threads make their *first* call on a fresh small view at the same
+    // instant, one call each - the windows that only open while the index is being built
+    let rounds = base_rounds + ctx.tier.pick(16_000u64, 400_000);
+    let tiny = ["", "a", "a\nb", "a\r\nb\n", "x\ny\nz"];
     let texts = [
         "",
         "a",
@@ -758,8 +762,9 @@ fn run_stress(ctx: &mut Ctx) {
         if round % 512 == 0 {
             crate::engine::heartbeat();
         }
-        let text = texts[(round % texts.len() as u64) as usize];
-        let nthreads = 2 + (round / texts.len() as u64 % 7) as usize * 2; // 2..14
+        let burst = round >= base_rounds;
+        let text = if burst { tiny[(round % tiny.len() as u64) as usize] } else { texts[(round % texts.len() as u64) as usize] };
+        let nthreads = if burst { 4 } else { 2 + (round / texts.len() as u64 % 7) as usize * 2 }; // 2..14
         let nlines = ref_lines(text).len() as u32;
         let view = Arc::new(SourceView::new(text.to_string().into()));
         let barrier = Arc::new(Barrier::new(nthreads));
@@ -769,12 +774,22 @@ fn run_stress(ctx: &mut Ctx) {
                 let view = view.clone();
                 let barrier = barrier.clone();
                 let tid = tids[t].clone();
-                let calls: Vec<Call> = match (t as u64 + round) % 5 {
+                let calls: Vec<Call> = if burst {
+                    vec![match (t as u64 * 5 + round / 5) % 6 {
+                        0 | 1 => Call::LineCount,
+                        2 => Call::GetLine(0),
+                        3 => Call::GetLine(nlines - 1),
+                        4 => Call::GetLine(nlines),
+                        _ => Call::Lines,
+                    }]
+                } else {
+                    match (t as u64 + round) % 5 {
                     0 => vec![Call::GetLine(nlines - 1), Call::LineCount],
                     1 => vec![Call::LineCount, Call::GetLine(0)],
                     2 => vec![Call::GetLine(nlines), Call::GetLine((t as u32) % nlines)],
                     3 => vec![Call::CloneLines, Call::GetLine(nlines), Call::LinesHeld],
                     _ => vec![Call::Lines],
+                    }
                 };
                 std::thread::spawn(move || {
                     if let Ok(l) = std::fs::read_link("/proc/thread-self") {
